@@ -7,6 +7,8 @@ UNIT_PROPS = {
     "wire_frame": ["C14", "C13"],
     "limiter": ["C17"],
     "identity": ["C19", "C04", "C11", "C12"],
+    "worker_auth": ["C12"],
+    "pktline": ["C13"],
 }
 
 LIMITER_GROUP = ["new_establishes_invariant", "refill_contract", "refill_amount_bounded", "take_contract"]
@@ -53,5 +55,12 @@ PROPS = {
         "technique": "Kani full-domain loop-free harnesses on the real TokenBucket::{new,refill,take} (f64 bit-precise) + Verus contract on extracted RateLimiter::limit (bypass/LAN gate) + Verus window lemma over the per-call contract",
         "explanation": "Per call, for every f64/u64 input satisfying the bucket invariant and ANY clock value: no panic, refilled_at never moves backwards, tokens stay in [0, capacity], refill never removes tokens and credits nothing without a whole forward second, take admits only with a whole token and removes exactly one. RateLimiter::limit returns false and leaves the buckets untouched for bypassed nodes and non-routable IPs. lemma_window_bound: along any run obeying the step contract, admitted <= capacity + rate * whole seconds elapsed.",
         "not_decided": "Exact refill amount tokens' == min(cap, tokens + secs*rate) is only proved on a bounded domain (labelled bounded); the window lemma is over exact integer arithmetic in micro-tokens, f64 rounding of + and * is idealised there; HashMap entry/or_insert_with in limit is a stand-in with arbitrary result.",
+    },
+    "C12": {
+        "vx": ["worker_auth", "identity"],
+        "kx": [],
+        "technique": "Verus gate idiom on extracted Worker::is_authorized/_process: sink upload_pack has precondition authorized(remote, header.repo); Doc::is_visible_to proved against its definition",
+        "explanation": "Worker::is_authorized returns Ok only if the seeding policy of the requested repository is not Block and the identity document is visible to the requester; Worker::_process can reach the upload_pack sink (whose precondition is exactly that predicate for the same remote and the repository named in the header) only through that gate. Doc::is_visible_to is proved equal to: public, or on the allow list, or a delegate.",
+        "not_decided": "Store reads (seed_policy, repository, identity_doc) return arbitrary values tied to ghost state; request header parsing (which repo id the header names) is string-level code (C13 covers its panic-freedom only); upload_pack itself (git subprocess) is the sink, not verified.",
     },
 }
